@@ -78,6 +78,8 @@ fn check_replace(variant: usize) -> Option<String> {
 const CLI_WORDS: &[(&str, &str)] = &[
     ("猫", "名詞"), ("火星", ""), ("a,b", "comma, in word and comment"), ("\"q\"", "quote \"x\""), (" a", " leading space"), ("b ", "trailing space "),
     ("a b", "inner  spaces"), ("tab\tx", "tab\there"), ("改\n行", "line\nbreak"), ("👨‍👩‍👧", "zwj"), ("x", " "), ("'", "'"),
+    // a word / comment starting with the CSV comment character
+    ("#火星", "# remark"), ("#", "#"),
 ];
 
 fn run_tool(args: &[String]) -> Result<(), String> {
